@@ -32,10 +32,10 @@ ModelAt(f0, c, pt) ==
   ELSE IF pt.outcome = "ok" THEN Finish(AppendChunks(started, c.dest, c.chunks, Len(c.chunks)), c.dest)
   ELSE IF c.fault.kind \in {"iter_raise", "invalid"} THEN AppendChunks(started, c.dest, c.chunks, c.fault.at)
   \* the (empty) indexes group exists before write_indexes / write_info run; the format attribute does not
-  ELSE IF c.fault.kind \in {"crash_indexes", "crash_info"}
+  ELSE IF c.fault.kind \in {"crash_indexes", "crash_info", "bad_metadata"}
        THEN [AppendChunks(started, c.dest, c.chunks, Len(c.chunks)) EXCEPT !.nodes[c.dest].tabs = AllTabs]
   ELSE started      \* crash_tables etc.: not compared exactly (see ExactPoint)
-ExactPoint(c, pt) == pt.at = "pull" \/ pt.outcome = "ok" \/ c.fault.kind \in {"iter_raise", "invalid", "crash_indexes", "crash_info"}
+ExactPoint(c, pt) == pt.at = "pull" \/ pt.outcome = "ok" \/ c.fault.kind \in {"iter_raise", "invalid", "crash_indexes", "crash_info", "bad_metadata"}
 ExpectedOutcome(c) == IF c.fault.kind = "none" THEN "ok" ELSE "error"
 
 \* clauses for one call; f0 = MODEL file before the call
